@@ -31,12 +31,12 @@ def burst : Nat → St → St
 
 end Q
 
-/-- `grpq unicastOnly sys tf lat n | outcome dt oldUse final delivered` -/
+/-- `grpq unicastOnly sys tf lat n | outcome dt oldUse final delivered stale` -/
 def grpq (c impl : List String) : Option Verdict := do
   let (uo, sys, _tf, lat, n) ← P.run (do
     let u ← P.bool; let s ← P.bool; let t ← P.int; let l ← P.int; let n ← P.nat; pure (u, s, t, l, n)) c
-  let (outcome, dt, oldUse, final, _delivered) ← P.run (do
-    let o ← P.tok; let d ← P.int; let u ← P.nat; let f ← P.tok; let k ← P.nat; pure (o, d, u, f, k)) impl
+  let (outcome, dt, oldUse, final, _delivered, stale) ← P.run (do
+    let o ← P.tok; let d ← P.int; let u ← P.nat; let f ← P.tok; let k ← P.nat; let st ← P.nat; pure (o, d, u, f, k, st)) impl
   let s0 := Corerad.Model.GroupQ.init uo
   let s1 := Q.tryStep s0 .writeErrInflight
   let s2 := Q.burst n s1
@@ -46,11 +46,12 @@ def grpq (c impl : List String) : Option Verdict := do
   -- the failing transmission follows its solicitation (600 ms after the fault) within
   -- MAX_RA_DELAY_TIME, the transmission in flight started within MAX_RA_DELAY_TIME of the fault
   let bound : Int := 600000000 + 500000000 + lat + 10000000
-  let ok := outcome == expected && decide (0 ≤ dt) && decide (dt ≤ bound) && oldUse == 0 && final == "nil"
+  let ok := outcome == expected && decide (0 ≤ dt) && decide (dt ≤ bound) && oldUse == 0 && final == "nil" && stale == 0
   let note := if outcome == "running" then
       "half-alive: a transmission failed while another was in flight; the task neither returned nor re-dialled after the latter completed (a producer is blocked sending on the request channel)"
     else if outcome != expected then s!"the fault must lead to {expected}, observed {outcome}"
     else if oldUse != 0 then "the old connection was still used after the task was torn down"
+    else if stale != 0 then s!"{stale} unicast RA(s) on the re-established connection answer solicitations received before the interface was re-initialised (they were due, if at all, within MAX_RA_DELAY_TIME on the previous connection)"
     else if final != "nil" then "the task did not stop cleanly afterwards"
     else if !decide (dt ≤ bound) then "teardown was not prompt" else ""
   pure { model := modelOutcome, oracle := ok, nontrivial := true, note := note,
